@@ -329,6 +329,7 @@ func C03(c *mon.Ctx) {
 			w.Count(fmt.Sprintf("digraphs n=%d with set targets and scope forms", n))
 		})
 	}
+	c03sameObject(c)
 	// random larger graphs: chains, cycles, diamonds, absent nodes
 	c.ParFor("random", c.N(20000, 300000), func(w *mon.W, i int) {
 		rd := w.Rand()
